@@ -4,6 +4,7 @@ from analysis.facts import AnchorError
 from analysis import terms as T, k2
 from analysis.cfg import cfg_of
 
+THOROUGH_CONFIGS = ['release', 'nobmi2', 'engine-alone']
 LEVEL = "other"
 DECIDED = ("R1 every value that can reach the move component of search_with's result is None or was produced by MoveGen::next on a generator created by legals() of the "
            "function's own board parameter (directly or carried over from the previous pass); R2 Engine::search dispatches White->search_with::<White>, Black->search_with::<Black> "
